@@ -50,6 +50,10 @@ def oracle_part(ctx: vlib.Ctx, n: int, label="oracle"):
         ctx.hist("dialect", str(case["params"]["dialect"]))
         ctx.hist("all_refs", str(case["params"]["all_refs"]))
         ctx.hist("ref_prefix", repr(case["params"]["ref_prefix"]))
+        cx = case["params"].get("context")
+        ctx.hist("passed_context", "none" if not cx else "+".join(k for k in ("dialect", "all_refs", "ref_prefix") if cx.get(k) is not None) or "all-unset")
+        if case["mode"] == "shared":
+            ctx.hist("shared_dialect_kw", str(sorted({str(sp["dialect"]) for sp in case["params"]["steps"]})))
         ctx.hist("kf_feature", str(case["kf_feature"]))
         ctx.hist("pep563", str(case["future_annotations"]))
         for rf in case["root_feats"]:
@@ -90,6 +94,50 @@ DIRECTED_DOCS = [{"const": 0}, {"const": ""}, {"const": False}, {"const": None},
                  {"default": ""}, {"default": False}, {"default": None}, {"enum": [0, "", False, None], "default": []},
                  {"type": "object", "properties": {"$ref": {"const": 0}}, "additionalProperties": False},
                  {"$ref": "#/$defs/A", "$defs": {"A": {"default": {}}}}]
+
+
+# degenerate shapes of every schema creator (no fields / no members / no items), under every wrapper, through the full oracle
+DEGENERATE_SRC = (
+    "import collections, enum\nfrom dataclasses import dataclass, field, InitVar\nfrom typing import *\n"
+    "from typing_extensions import TypedDict\nfrom mashumaro.config import BaseConfig\nfrom mashumaro import field_options\n"
+    "class NT0(NamedTuple):\n    pass\n"
+    "CN0 = collections.namedtuple('CN0', [])\n"
+    "class TD0(TypedDict):\n    pass\n"
+    "class TD0n(TypedDict, total=False):\n    pass\n"
+    "class E0(enum.Enum):\n    pass\n"
+    "class F0(enum.Flag):\n    pass\n"
+    "@dataclass\nclass DC0:\n    pass\n"
+    "@dataclass\nclass DCV:\n    c: ClassVar[int] = 1\n    i: InitVar[int] = 0\n    h: int = field(default=0, init=False)\n"
+    "TV0 = TypeVar('TV0')\n"
+    "@dataclass\nclass G0(Generic[TV0]):\n    pass\n"
+    "@dataclass\nclass HL:\n    a: NT0\n    b: CN0 = CN0()\n    c: List[NT0] = field(default_factory=list)\n"
+    "    d: NT0 = field(default=NT0(), metadata=field_options(serialize='as_dict'))\n    e: TD0 = field(default_factory=dict)\n    f: DC0 = None\n"
+    "@dataclass\nclass HD:\n    a: NT0\n    b: CN0 = CN0()\n    c: Optional[Tuple[NT0, CN0]] = None\n"
+    "    d: NT0 = field(default=NT0(), metadata=field_options(serialize='as_list'))\n"
+    "    class Config(BaseConfig):\n        namedtuple_as_dict = True\n")
+DEGENERATE_BASES = ["NT0", "CN0", "TD0", "TD0n", "E0", "F0", "DC0", "DCV", "G0", "G0[int]", "HL", "HD", "Tuple[()]", "tuple", "list", "dict",
+                    "List", "Dict", "Sequence[Any]", "Literal[None]", "Any", "Tuple[Any, ...]", "collections.Counter", "frozenset", "Set"]
+DEGENERATE_WRAPS = ["{}", "List[{}]", "Optional[{}]", "Tuple[{}, int]", "Tuple[{}, ...]", "Dict[str, {}]", "Union[{}, int]"]
+
+
+def degenerate_part(ctx: vlib.Ctx):
+    for base in DEGENERATE_BASES:
+        for w in DEGENERATE_WRAPS:
+            if w != "{}" and base in ("Any",):
+                continue
+            expr = w.format(base)
+            for params in ({"dialect": None, "all_refs": None, "ref_prefix": None, "with_definitions": True, "with_dialect_uri": False, "context": None},
+                           {"dialect": "OPEN_API_3_1", "all_refs": None, "ref_prefix": "#/x/", "with_definitions": True, "with_dialect_uri": True, "context": None}):
+                case = {"source": DEGENERATE_SRC, "roots": [expr], "mode": "single", "params": params, "feats": [{}]}
+                res = c20_oracle.run_case(case)
+                if res["ok"] is None:
+                    ctx.hist("degenerate", "excluded:" + res["what"][:60])
+                    continue
+                ctx.count(("degenerate", expr, params["dialect"]))
+                ctx.hist("degenerate", "ok" if res["ok"] else "fail")
+                if not res["ok"]:
+                    sig = {"clause": res.get("clause"), "exc": res.get("exc"), "kind": "other", "degenerate": expr}
+                    ctx.fail(f"{res['what']} [degenerate shape] root={expr}", _replay_of(case, res), sig)
 
 
 def directed_part(ctx: vlib.Ctx):
@@ -139,6 +187,7 @@ def run(ctx: vlib.Ctx):
     if ctx.unshown:
         n = ctx.budget(2500, 16000)
     directed_part(ctx)
+    degenerate_part(ctx)
     oracle_part(ctx, n)
     ctx.trusted.append("jsonschema package (Draft202012Validator.check_schema incl. format checks) as the metaschema validator of the oracle")
     ctx.trusted.append("harness/props/c20_gen.py: the feature predicates (cyclic, Self, slots, field-level overrides, Final, NamedTuple "
